@@ -61,6 +61,8 @@ func (j *jsonCodec) HandleRead(ctx netty.InboundContext, message netty.Message) 
 	// decode to map
 	var object = make(map[string]interface{})
 	utils.Assert(jsonDecoder.Decode(&object))
+	// the frame `null` decodes into a nil map without an error: not an object
+	utils.AssertIf(nil == object, "json frame is not an object")
 
 	// post object
 	ctx.HandleRead(object)
